@@ -7,6 +7,8 @@ package main
 // precedence (field path first, then Message.Field) must hold under every schedule.
 
 import (
+	"strings"
+
 	"github.com/gogo/protobuf/protoc-gen-gogo/descriptor"
 )
 
@@ -124,4 +126,32 @@ func Harness_K14_FlagMapFromArray() {
 	_, in2 := m2[q]
 	vrtAssert("C14/K14/flag-map-order-free", in1 == in2 && in1 == (q == a || q == b) && len(m1) == len(m2))
 	vrtReach("K14/flagmap/end")
+}
+
+// Harness_K14_ReadConfig: reading the same file twice (two independent map-iteration schedules inside
+// whatever ReadConfig does with the configuration maps) yields the same suffixes, and exactly the
+// entries the file holds.
+func Harness_K14_ReadConfig() {
+	typ := vrtString()
+	k1, v1, k2, v2, probe := vrtString(), vrtString(), vrtString(), vrtString(), vrtString()
+	vrtAssume(vrtIdent(typ) && typ != "" && vrtPath(k1) && vrtPath(k2) && vrtIdent(v1) && vrtIdent(v2) && vrtPath(probe) && k1 != k2)
+	vrtAssume(!strings.HasPrefix(k1, "-") && !strings.HasPrefix(k2, "-"))
+	path := vrtConfigFileS(false, false, false, typ, k1, v1, k2, v2)
+	c1, err1 := ReadConfig(map[string]string{"config": path})
+	c2, err2 := ReadConfig(map[string]string{"config": path})
+	vrtAssert("C14/K14/readconfig-ok", err1 == nil && err2 == nil && c1 != nil && c2 != nil)
+	if c1 != nil && c2 != nil {
+		s1, in1 := c1.Suffixes[probe]
+		s2, in2 := c2.Suffixes[probe]
+		vrtAssert("C14/K14/readconfig-suffixes-schedule-free", in1 == in2 && s1 == s2 && len(c1.Suffixes) == len(c2.Suffixes))
+		want, wantIn := "", false
+		if k1 != "" && probe == k1 {
+			want, wantIn = v1, true
+		}
+		if k2 != "" && probe == k2 {
+			want, wantIn = v2, true
+		}
+		vrtAssert("C14/K14/readconfig-suffixes-as-in-file", in1 == wantIn && s1 == want)
+	}
+	vrtReach("K14/readconfig/end")
 }
